@@ -54,6 +54,7 @@ func checkConc(c concCase) error {
 func TestC17Concurrent(t *testing.T) {
 	r := hx.Start(t, "C17")
 	defer r.Finish(t)
+	r.Rule("concurrent_tags: 4..16 unrelated tag maps of >= 2 keys, each rendered and read back through reflect.StructTag 60 times on a goroutine of its own, all released together; every map round-trips alone first")
 	hx.Rapid(r, t, hx.Check[concCase]{Name: "concurrent_tags", Fn: checkConc}, r.N(40, 300), func(rt *rapid.T) concCase {
 		c := concCase{Rounds: 60}
 		for i := rapid.IntRange(4, 16).Draw(rt, "ntags"); i > 0; i-- {
